@@ -238,6 +238,12 @@ func c02Build(cfgToks []string) (*c02World, error) {
 		IPv4Profiles:     v4,
 		IPv6Profiles:     v6,
 	}
+	// the address profiles of the generated configuration go through the real Config.Validate before anything is
+	// built from them, as at load time (the subscriber groups of the harness are bare - no access types, parent
+	// interfaces - and would be refused for reasons that have nothing to do with addresses: they are left out)
+	if err := (&config.Config{IPv4Profiles: v4, IPv6Profiles: v6}).Validate(); err != nil {
+		return nil, c02Rejected{err}
+	}
 	allocator.ResetGlobalRegistry()
 	p, err := dhcp4local.New(w.cfg) // also initialises the global registry, as in production
 	if err != nil {
@@ -748,6 +754,9 @@ func (w *c02World) op(f []string) string {
 	return "badop"
 }
 
+// c02Rejected: Config.Validate refused the generated configuration
+type c02Rejected struct{ error }
+
 func c02RunCase(line string) (out string) {
 	defer func() {
 		if r := recover(); r != nil {
@@ -757,6 +766,9 @@ func c02RunCase(line string) (out string) {
 	parts := strings.Split(line, " ; ")
 	w, err := c02Build(strings.Fields(parts[0]))
 	if err != nil {
+		if _, ok := err.(c02Rejected); ok {
+			return "rejected-config" // Config.Validate refused the configuration: nothing runs
+		}
 		return "cfgerr " + strings.ReplaceAll(err.Error(), " ", "_")
 	}
 	res := []string{"init | " + allocator.GetGlobalRegistry().VerifC02Snapshot() + " | " + w.prov.VerifC02Leases() + " | " + w.prov6.VerifC02Leases()}
